@@ -103,7 +103,10 @@ type DocGen struct {
 	spare   int // probability (per 100) that an array has spare capacity (F5)
 	nextDef int
 	shared  []string // encodings of shareable rec sub-trees (def ids)
+	arrDefs []arrDef // arrays that later windows may alias
 }
+
+type arrDef struct{ id, n int }
 
 var strPool = []string{"alpha", "beta", "gamma", "delta", "héllo", "日本語", "a b", "", "x", "Zed", "a,b", "10", "2"}
 var grpPool = []string{"g1", "g2", "g3"}
@@ -164,18 +167,36 @@ func (g *DocGen) wrong() string {
 }
 
 func (g *DocGen) arr(n int, el func(i int) string) string {
+	if n == 0 && g.r.P(1, 6) {
+		return `{"nil":"a"}` // a nil slice
+	}
+	if len(g.arrDefs) > 0 && g.r.P(1, 12) {
+		// a window onto an array that already occurs in the document
+		d := pick(g.r, g.arrDefs)
+		lo := g.r.Intn(d.n + 1)
+		hi := lo + g.r.Intn(d.n-lo+1)
+		return `{"win":` + strconv.Itoa(d.id) + `,"lo":` + strconv.Itoa(lo) + `,"hi":` + strconv.Itoa(hi) + `}`
+	}
 	parts := make([]string, n)
 	for i := range parts {
 		parts[i] = el(i)
 	}
 	s := "[" + strings.Join(parts, ",") + "]"
 	if g.r.Intn(100) < g.spare {
-		return `{"a":` + s + `,"cap":` + strconv.Itoa(1+g.r.Intn(4)) + `}`
+		s = `{"a":` + s + `,"cap":` + strconv.Itoa(1+g.r.Intn(4)) + `}`
+	}
+	if n >= 2 && !strings.Contains(s, `"def"`) && !strings.Contains(s, `"ref"`) && g.r.P(1, 6) {
+		g.nextDef++
+		g.arrDefs = append(g.arrDefs, arrDef{g.nextDef, n})
+		return `{"def":` + strconv.Itoa(g.nextDef) + `,"v":` + s + `}`
 	}
 	return s
 }
 
 func (g *DocGen) obj(keys []string, val func(k string) string) string {
+	if len(keys) == 0 && g.r.P(1, 6) {
+		return `{"nil":"o"}` // a nil map
+	}
 	parts := make([]string, 0, 2*len(keys))
 	for _, k := range keys {
 		parts = append(parts, jsonString(k), val(k))
@@ -232,6 +253,9 @@ func (g *DocGen) val(t *Ty, depth int) string {
 		}
 		if depth <= 1 && g.r.P(1, 12) {
 			n = 13 + g.r.Intn(20) // long arrays with many tied keys
+		}
+		if depth <= 1 && t.E.K == 'n' && g.r.P(1, 60) {
+			n = 65 + g.r.Intn(240) // beyond typical size thresholds
 		}
 		return g.arr(n, func(int) string { return g.val(t.E, depth+1) })
 	case 'o':
